@@ -335,6 +335,14 @@ pub fn check_c04(t: &Transcript) -> Option<Finding> {
                 if ci.domain != d || ci.user != u || ci.password != p {
                     return Err(format!("strings differ from the configuration: domain {:?} user {:?} password {:?}", ci.domain, ci.user, ci.password));
                 }
+                // TS_EXTENDED_INFO_PACKET exists from RDP 5.0 on: an RDP 4.0 server (0x00080001) reads the packet up to the
+                // working directory and finds bytes its fields do not describe; an RDP 5+ server (0x00080004) needs it
+                if t.params.version == 0x0008_0001 && ci.extended.is_some() {
+                    return Err("info packet for an RDP 4.0 server carries an extended info packet (bytes after the last field)".into());
+                }
+                if t.params.version == 0x0008_0004 && ci.extended.is_none() {
+                    return Err("info packet for an RDP 5 server lacks the extended info packet".into());
+                }
                 Ok(())
             }
             "confirm_active" => {
@@ -484,7 +492,11 @@ pub fn check_c17(t: &Transcript) -> Option<Finding> {
         } else {
             (utf16le(&t.cfg.client.domain), utf16le(&t.cfg.client.user), if t.cfg.use_hash { vec![] } else { utf16le(&t.cfg.client.password) })
         };
-        if (d.clone(), u.clone(), p.clone()) != (wd, wu, wp) {
+        // in an OEM session (CHALLENGE without NEGOTIATE_UNICODE) the client spells the same strings in the OEM
+        // character set; which spelling TSPasswordCreds takes then is not this property's matter
+        let oem = t.params.ntlm.flags & vref::ntlm::F_UNICODE == 0;
+        let oem_want = if empty { (vec![], vec![], vec![]) } else { (t.cfg.client.domain.as_bytes().to_vec(), t.cfg.client.user.as_bytes().to_vec(), if t.cfg.use_hash { vec![] } else { t.cfg.client.password.as_bytes().to_vec() }) };
+        if (d.clone(), u.clone(), p.clone()) != (wd, wu, wp) && !(oem && (d.clone(), u.clone(), p.clone()) == oem_want) {
             return Some(f(
                 "credssp-credentials-differ-from-mode",
                 format!("TSPasswordCreds domain {} user {} password {} bytes for restricted_admin={} blank_creds={} use_hash={}", d.len(), u.len(), p.len(), t.cfg.restricted_admin, t.cfg.blank_creds, t.cfg.use_hash),
